@@ -1,6 +1,8 @@
 pub mod c01;
 pub mod c03;
 pub mod c04;
+pub mod c05;
+pub mod c06;
 pub mod c13;
 pub mod replay;
 
@@ -11,6 +13,8 @@ pub fn dispatch(prop: &str, tier: Tier) -> i32 {
         "C01" => c01::run(tier),
         "C03" => c03::run(tier),
         "C04" => c04::run(tier),
+        "C05" => c05::run(tier),
+        "C06" => c06::run(tier),
         "C13" => c13::run(tier),
         _ => {
             println!("MACHINERY-ERROR: unknown property {}", prop);
